@@ -165,6 +165,7 @@ class VNet:
         self.occupied: set[int] = set()              # ports held by somebody else
         self.queue: asyncio.Queue | None = None      # (conn, data) in arrival order
         self.on_write_hook: Callable[[VConn, bytes], None] | None = None
+        self.dials: list[tuple[str, int]] = []       # every address a client tried to connect to, in order
 
     # TCP
     def listen(self, host: str, port: int, accept: bool = True):
@@ -217,6 +218,7 @@ class VLoop(asyncio.SelectorEventLoop):
 
     async def create_connection(self, protocol_factory, host=None, port=None, **kw):
         await asyncio.sleep(0)
+        self.net.dials.append((host, port))
         if not self.net.tcp.get((host, port), False):
             raise ConnectionRefusedError(111, f"Connect call failed ({host!r}, {port})")
         protocol = protocol_factory()
